@@ -145,7 +145,7 @@ Definition enter_room (m : mgr) (sid ns : str) (room : pv) : mgr * Res unit :=
       let b := match aget room_eqb rm room with Some b => b | None => [] end in
       let created := set_rooms m (aset str_eqb (rooms m) ns (aset room_eqb rm room b)) in
       match (match aget room_eqb rm PNone with Some b0 => bd_get b0 sid | None => None end) with
-      | None => (created, Err KeyError)     (* rooms[ns][None][sid] *)
+      | None => (m, Err KeyError)           (* rooms[ns][None][sid], before the room is created *)
       | Some eio =>
           match bd_put b sid eio with
           | Some b' => (set_rooms m (aset str_eqb (rooms m) ns (aset room_eqb rm room b')), Ok tt)
@@ -190,22 +190,16 @@ Definition generate_ack_id (m : mgr) (sid : str) (cb : N) : mgr * Res N :=
       (mkMgr (rooms m) (pending m) (aset str_eqb (callbacks m) sid slot'), Ok n)
   end.
 
-(* trigger_callback(sid, id, data): which callable is invoked, if any.
-   CbCounter = the itertools.count object stored under key 0 (not callable). *)
-Inductive cbtarget := CbNone | CbRef (n : N) | CbCounter.
+(* trigger_callback(sid, id, data): which callback is invoked, if any.  Key 0 of the table
+   holds the id generator, which is not callable and therefore never a callback. *)
+Inductive cbtarget := CbNone | CbRef (n : N).
 Definition trigger_callback (m : mgr) (sid : option str) (id : option Z) : mgr * cbtarget :=
   match sid, id with
   | Some s, Some i =>
       match aget str_eqb (callbacks m) s with
       | None => (m, CbNone)
       | Some slot =>
-          if (i =? 0)%Z then
-            match cb_counter slot with
-            | Some _ => (mkMgr (rooms m) (pending m)
-                               (aset str_eqb (callbacks m) s (mkSlot None (cb_entries slot))), CbCounter)
-            | None => (m, CbNone)
-            end
-          else if (i <? 0)%Z then (m, CbNone)
+          if (i <=? 0)%Z then (m, CbNone)
           else match aget N.eqb (cb_entries slot) (Z.to_N i) with
                | Some cb => (mkMgr (rooms m) (pending m)
                                    (aset str_eqb (callbacks m) s
